@@ -54,6 +54,11 @@ let run_mm (mfast : coq_Z) (ops : string list) : string =
                     (match find a.(0) (fst (fst !s)) with
                      | Some e -> Printf.sprintf "key(%s,%s,%d)" (zs e.ekey) (zs e.etag) (Stdlib.List.length (evals e))
                      | None -> "key(?)"))
+      | 'L' -> let rec trip i = if i + 2 < Array.length a && i < 9 then ((a.(i), a.(i+1)), a.(i+2)) :: trip (i + 3) else [] in
+               apply OClear; apply (OAddRange (trip 0)); "ok"       (* construct from an initializer list, move-assign *)
+      | 'M' -> (match find a.(0) es with
+                | Some e when int_of_z a.(1) <= Stdlib.List.length (evals e) -> "mi"
+                | _ -> "skip")
       | 'G' -> let rec trip i = if i + 2 < Array.length a then ((a.(i), a.(i+1)), a.(i+2)) :: trip (i + 3) else [] in
                apply (OAddRange (trip 0)); "ok"
       | 'i' -> apply (OInsertKey (a.(0), a.(1)));
@@ -118,6 +123,12 @@ let run_um (mfast : coq_Z) (kprobe : int) (ops : string list) : string =
       | ErThrow -> "throw" in
     let ret = match c with
       | 'i' -> setcur (w_insert mfast cur a.(0) a.(1)); "ok"
+      | 'n' -> let m = ref cur in
+               let i = ref 0 in
+               while !i + 1 < Array.length a do m := w_insert mfast !m a.(!i) a.(!i + 1); i := !i + 2 done;
+               setcur !m; "ok"
+      | 'h' -> setcur (w_insert mfast cur a.(0) a.(1)); "ok"
+      | 'm' -> s := step mfast !s OMoveFrom; "ok"
       | 'j' -> setcur (step1 mfast cur (OAdd (a.(0), a.(1), a.(2)))); "ok"     (* insert of the key object (class, identity) *)
       | 'e' -> let m = w_erase_key mfast cur a.(0) in
                let r = Printf.sprintf "n%s" (zs (BinInt.Z.sub (get_count cur) (get_count m))) in setcur m; r
@@ -146,7 +157,8 @@ let run_um (mfast : coq_Z) (kprobe : int) (ops : string list) : string =
     Buffer.add_string b " er=";
     for k = 0 to kprobe - 1 do
       let vs = Stdlib.List.sort compare (Stdlib.List.map int_of_z (w_equal_range cur (z_of_int k))) in
-      if vs <> [] then Buffer.add_string b (Printf.sprintf "%d:%s;" k (String.concat "," (Stdlib.List.map string_of_int vs)))
+      let idn = match find (z_of_int k) (fst cur) with Some e -> int_of_z e.etag | None -> 0 in
+      if vs <> [] then Buffer.add_string b (Printf.sprintf "%d/%d:%s;" k idn (String.concat "," (Stdlib.List.map string_of_int vs)))
     done;
     let tf x = if x then "T" else "F" in
     Buffer.add_string b (Printf.sprintf " eq=%s%s" (tf (w_eq cur (snd !s))) (tf (w_eq (snd !s) cur)));
